@@ -769,6 +769,113 @@ fn run(case_file: &str, out_path: &str) -> i32 {
     0
 }
 
+/// C03: ConversionEngine::convert called directly on compositions built with the public
+/// Composition operations (symbols, breaks, glue, selections), all three engines, every alternative
+fn conv_cases(tier: &str, out_path: &str) -> i32 {
+    use chewing::conversion::{Composition, ConversionEngine, Gap, Interval, Symbol};
+    let seed = vharness::util::seed_from_env();
+    let cases = if tier == "thorough" { 4000 } else { 400 };
+    let f = std::fs::File::create(out_path).unwrap();
+    let mut w = std::io::BufWriter::new(f);
+    let mut alts = 0usize;
+    let mut maxlen = 0usize;
+    let mut nontrivial = 0usize;
+    for n in 0..cases {
+        let mut rng = Rng::new(seed.wrapping_mul(7_000_003).wrapping_add(n as u64));
+        let (mut setup, world) = gen_setup(&mut rng);
+        // every syllable has a word here (the property's dictionary hypothesis)
+        for (i, s) in world.syls.iter().enumerate() {
+            if world.no_word[i] {
+                setup.sys.push(Entry { key: vec![*s], text: cjk(&mut rng).to_string(), freq: rng.below(100) as u32, time: 0 });
+            }
+        }
+        let mut out = String::new();
+        write_setup(n, &setup, &mut out);
+        let mut sys = TrieBuf::new_in_memory();
+        for e in &setup.sys {
+            let _ = sys.as_dict_mut().unwrap().add_phrase(&e.key, Phrase::new(e.text.as_str(), e.freq));
+        }
+        let mut usr = TrieBuf::new_in_memory();
+        for e in &setup.usr {
+            let _ = usr.as_dict_mut().unwrap().update_phrase(&e.key, Phrase::new(e.text.as_str(), e.freq), e.freq, e.time);
+        }
+        let dict = Layered::new(vec![Box::new(sys)], Box::new(usr));
+        let len = 1 + rng.below(if tier == "thorough" { 30 } else { 14 }) as usize;
+        let mut comp = Composition::new();
+        for _ in 0..len {
+            if rng.chance(1, 7) {
+                comp.push(Symbol::from(*rng.pick(&['a', '，', '1', 'Z', '。'])));
+            } else {
+                comp.push(Symbol::from(world.syls[rng.below(world.syls.len() as u64) as usize]));
+            }
+        }
+        for _ in 0..rng.below(4) {
+            let i = rng.below(len as u64) as usize;
+            comp.set_gap(i, if rng.chance(1, 2) { Gap::Break } else { Gap::Glue });
+        }
+        // selections: dictionary phrases for random all-syllable ranges (what the editor would record)
+        let mut nsel = 0;
+        for _ in 0..rng.below(5) {
+            let b = rng.below(len as u64) as usize;
+            let e = (b + 1 + rng.below(3) as usize).min(len);
+            let rng_syms = &comp.symbols()[b..e];
+            if rng_syms.iter().any(|s| s.is_char()) {
+                continue;
+            }
+            let syls: Vec<Syllable> = rng_syms.iter().map(|s| s.to_syllable().unwrap()).collect();
+            let cands = dict.lookup_all_phrases(&syls, LookupStrategy::Standard);
+            if cands.is_empty() {
+                continue;
+            }
+            let ph = rng.pick(&cands).clone();
+            comp.push_selection(Interval { start: b, end: e, is_phrase: true, str: ph.as_str().into() });
+            nsel += 1;
+        }
+        for _ in 0..rng.below(3) {
+            let i = rng.below(len as u64) as usize;
+            comp.set_gap(i, if rng.chance(1, 2) { Gap::Break } else { Gap::Glue });
+        }
+        maxlen = maxlen.max(len);
+        if nsel > 0 {
+            nontrivial += 1;
+        }
+        let syms = comp.symbols().iter().map(|s| match s {
+            Symbol::Syllable(x) => format!("S{}", x.to_u16()),
+            Symbol::Char(c) => format!("C{}", *c as u32),
+        }).collect::<Vec<_>>().join(",");
+        let gaps = (0..comp.len()).map(|i| match comp.gap(i) {
+            Some(Gap::Begin) => "B",
+            Some(Gap::Break) => "K",
+            Some(Gap::Glue) => "G",
+            _ => "N",
+        }).collect::<Vec<_>>().join(",");
+        let mut sels = comp.selections().to_vec();
+        sels.sort();
+        let ivstr = |ivs: &[Interval]| ivs.iter().map(|iv| format!("{}-{}:{}:{}", iv.start, iv.end, if iv.is_phrase { 'P' } else { 'N' }, cps(&iv.str))).collect::<Vec<_>>().join(",");
+        let _ = writeln!(out, "COMP syms={} gaps={} sels={}", syms, gaps, ivstr(&sels));
+        let engines: [(u8, Box<dyn ConversionEngine>); 3] =
+            [(0, Box::new(SimpleEngine::new())), (1, Box::new(ChewingEngine::new())), (2, Box::new(FuzzyChewingEngine::new()))];
+        for (k, eng) in engines.iter() {
+            let r = catch(AssertUnwindSafe(|| eng.convert(&dict, &comp).take(100).collect::<Vec<_>>()));
+            match r {
+                Ok(paths) => {
+                    for p in paths {
+                        alts += 1;
+                        let _ = writeln!(out, "ALT {} {}", k, ivstr(&p));
+                    }
+                }
+                Err(m) => {
+                    let _ = writeln!(out, "ALT {} PANIC {}", k, m.replace('\n', " "));
+                }
+            }
+        }
+        w.write_all(out.as_bytes()).unwrap();
+    }
+    w.flush().unwrap();
+    println!("{{\"cases\":{},\"ops\":{},\"nontrivial_cases\":{},\"max_buffer_len\":{}}}", cases, alts, nontrivial, maxlen);
+    0
+}
+
 /// C18: every printable ASCII character x both forms x both language modes x
 /// {empty buffer, every cursor position of a 3-symbol buffer}, on the Qwerty keyboard
 fn sweep_c18(out_path: &str) -> i32 {
@@ -849,6 +956,7 @@ fn main() {
         Some("gen") => generate(&args[1], &args[2]),
         Some("run") => run(&args[1], &args[2]),
         Some("c18") => sweep_c18(&args[1]),
+        Some("conv") => conv_cases(&args[1], &args[2]),
         _ => {
             eprintln!("usage: ed gen <tier> <out> | ed run <cases> <out>");
             2
